@@ -34,53 +34,59 @@ func (src *Rollout) ConvertTo(dst conversion.Hub) error {
 		obj.ObjectMeta = src.ObjectMeta
 		obj.Spec = v1beta1.RolloutSpec{}
 		srcSpec := src.Spec
-		obj.Spec.WorkloadRef = v1beta1.ObjectRef{
-			APIVersion: srcSpec.ObjectRef.WorkloadRef.APIVersion,
-			Kind:       srcSpec.ObjectRef.WorkloadRef.Kind,
-			Name:       srcSpec.ObjectRef.WorkloadRef.Name,
+		// workloadRef and canary are optional in the v1alpha1 schema
+		if srcSpec.ObjectRef.WorkloadRef != nil {
+			obj.Spec.WorkloadRef = v1beta1.ObjectRef{
+				APIVersion: srcSpec.ObjectRef.WorkloadRef.APIVersion,
+				Kind:       srcSpec.ObjectRef.WorkloadRef.Kind,
+				Name:       srcSpec.ObjectRef.WorkloadRef.Name,
+			}
 		}
 		obj.Spec.Disabled = srcSpec.Disabled
 		obj.Spec.Strategy = v1beta1.RolloutStrategy{
 			Paused: srcSpec.Strategy.Paused,
-			Canary: &v1beta1.CanaryStrategy{
-				FailureThreshold: srcSpec.Strategy.Canary.FailureThreshold,
-			},
 		}
-		for _, step := range srcSpec.Strategy.Canary.Steps {
-			o := v1beta1.CanaryStep{
-				TrafficRoutingStrategy: ConversionToV1beta1TrafficRoutingStrategy(step.TrafficRoutingStrategy),
-				Replicas:               step.Replicas,
-				Pause:                  v1beta1.RolloutPause{Duration: step.Pause.Duration},
+		if srcSpec.Strategy.Canary != nil {
+			obj.Spec.Strategy.Canary = &v1beta1.CanaryStrategy{
+				FailureThreshold:             srcSpec.Strategy.Canary.FailureThreshold,
+				DisableGenerateCanaryService: srcSpec.Strategy.Canary.DisableGenerateCanaryService,
 			}
-			if step.Replicas == nil && step.Weight != nil {
-				o.Replicas = &intstr.IntOrString{
-					Type:   intstr.String,
-					StrVal: fmt.Sprintf("%d", *step.Weight) + "%",
+			for _, step := range srcSpec.Strategy.Canary.Steps {
+				o := v1beta1.CanaryStep{
+					TrafficRoutingStrategy: ConversionToV1beta1TrafficRoutingStrategy(step.TrafficRoutingStrategy),
+					Replicas:               step.Replicas,
+					Pause:                  v1beta1.RolloutPause{Duration: step.Pause.Duration},
+				}
+				if step.Replicas == nil && step.Weight != nil {
+					o.Replicas = &intstr.IntOrString{
+						Type:   intstr.String,
+						StrVal: fmt.Sprintf("%d", *step.Weight) + "%",
+					}
+				}
+				obj.Spec.Strategy.Canary.Steps = append(obj.Spec.Strategy.Canary.Steps, o)
+			}
+			for _, ref := range srcSpec.Strategy.Canary.TrafficRoutings {
+				o := ConversionToV1beta1TrafficRoutingRef(ref)
+				obj.Spec.Strategy.Canary.TrafficRoutings = append(obj.Spec.Strategy.Canary.TrafficRoutings, o)
+			}
+			if srcSpec.Strategy.Canary.PatchPodTemplateMetadata != nil {
+				obj.Spec.Strategy.Canary.PatchPodTemplateMetadata = &v1beta1.PatchPodTemplateMetadata{
+					Annotations: map[string]string{},
+					Labels:      map[string]string{},
+				}
+				for k, v := range srcSpec.Strategy.Canary.PatchPodTemplateMetadata.Annotations {
+					obj.Spec.Strategy.Canary.PatchPodTemplateMetadata.Annotations[k] = v
+				}
+				for k, v := range srcSpec.Strategy.Canary.PatchPodTemplateMetadata.Labels {
+					obj.Spec.Strategy.Canary.PatchPodTemplateMetadata.Labels[k] = v
 				}
 			}
-			obj.Spec.Strategy.Canary.Steps = append(obj.Spec.Strategy.Canary.Steps, o)
-		}
-		for _, ref := range srcSpec.Strategy.Canary.TrafficRoutings {
-			o := ConversionToV1beta1TrafficRoutingRef(ref)
-			obj.Spec.Strategy.Canary.TrafficRoutings = append(obj.Spec.Strategy.Canary.TrafficRoutings, o)
-		}
-		if srcSpec.Strategy.Canary.PatchPodTemplateMetadata != nil {
-			obj.Spec.Strategy.Canary.PatchPodTemplateMetadata = &v1beta1.PatchPodTemplateMetadata{
-				Annotations: map[string]string{},
-				Labels:      map[string]string{},
+			if !strings.EqualFold(src.Annotations[RolloutStyleAnnotation], string(PartitionRollingStyle)) {
+				obj.Spec.Strategy.Canary.EnableExtraWorkloadForCanary = true
 			}
-			for k, v := range srcSpec.Strategy.Canary.PatchPodTemplateMetadata.Annotations {
-				obj.Spec.Strategy.Canary.PatchPodTemplateMetadata.Annotations[k] = v
+			if src.Annotations[TrafficRoutingAnnotation] != "" {
+				obj.Spec.Strategy.Canary.TrafficRoutingRef = src.Annotations[TrafficRoutingAnnotation]
 			}
-			for k, v := range srcSpec.Strategy.Canary.PatchPodTemplateMetadata.Labels {
-				obj.Spec.Strategy.Canary.PatchPodTemplateMetadata.Labels[k] = v
-			}
-		}
-		if !strings.EqualFold(src.Annotations[RolloutStyleAnnotation], string(PartitionRollingStyle)) {
-			obj.Spec.Strategy.Canary.EnableExtraWorkloadForCanary = true
-		}
-		if src.Annotations[TrafficRoutingAnnotation] != "" {
-			obj.Spec.Strategy.Canary.TrafficRoutingRef = src.Annotations[TrafficRoutingAnnotation]
 		}
 
 		// status
@@ -171,7 +177,7 @@ func (dst *Rollout) ConvertFrom(src conversion.Hub) error {
 	case *v1beta1.Rollout:
 		srcV1beta1 := src.(*v1beta1.Rollout)
 		dst.ObjectMeta = srcV1beta1.ObjectMeta
-		if !srcV1beta1.Spec.Strategy.IsCanaryStragegy() {
+		if !srcV1beta1.Spec.Strategy.IsEmptyRelease() && !srcV1beta1.Spec.Strategy.IsCanaryStragegy() {
 			// only v1beta1 supports bluegreen strategy
 			// Don't log the message because it will print too often
 			return nil
@@ -187,46 +193,50 @@ func (dst *Rollout) ConvertFrom(src conversion.Hub) error {
 			},
 			Strategy: RolloutStrategy{
 				Paused: srcV1beta1.Spec.Strategy.Paused,
-				Canary: &CanaryStrategy{
-					FailureThreshold: srcV1beta1.Spec.Strategy.Canary.FailureThreshold,
-				},
 			},
 			Disabled: srcV1beta1.Spec.Disabled,
 		}
-		for _, step := range srcV1beta1.Spec.Strategy.Canary.Steps {
-			obj := CanaryStep{
-				TrafficRoutingStrategy: ConversionToV1alpha1TrafficRoutingStrategy(step.TrafficRoutingStrategy),
-				Replicas:               step.Replicas,
-				Pause:                  RolloutPause{Duration: step.Pause.Duration},
+		// canary is optional in the v1beta1 schema (a strategy with neither canary nor blueGreen)
+		if srcV1beta1.Spec.Strategy.Canary != nil {
+			dst.Spec.Strategy.Canary = &CanaryStrategy{
+				FailureThreshold:             srcV1beta1.Spec.Strategy.Canary.FailureThreshold,
+				DisableGenerateCanaryService: srcV1beta1.Spec.Strategy.Canary.DisableGenerateCanaryService,
 			}
-			dst.Spec.Strategy.Canary.Steps = append(dst.Spec.Strategy.Canary.Steps, obj)
-		}
-		for _, ref := range srcV1beta1.Spec.Strategy.Canary.TrafficRoutings {
-			obj := ConversionToV1alpha1TrafficRoutingRef(ref)
-			dst.Spec.Strategy.Canary.TrafficRoutings = append(dst.Spec.Strategy.Canary.TrafficRoutings, obj)
-		}
-		if srcV1beta1.Spec.Strategy.Canary.PatchPodTemplateMetadata != nil {
-			dst.Spec.Strategy.Canary.PatchPodTemplateMetadata = &PatchPodTemplateMetadata{
-				Annotations: map[string]string{},
-				Labels:      map[string]string{},
+			for _, step := range srcV1beta1.Spec.Strategy.Canary.Steps {
+				obj := CanaryStep{
+					TrafficRoutingStrategy: ConversionToV1alpha1TrafficRoutingStrategy(step.TrafficRoutingStrategy),
+					Replicas:               step.Replicas,
+					Pause:                  RolloutPause{Duration: step.Pause.Duration},
+				}
+				dst.Spec.Strategy.Canary.Steps = append(dst.Spec.Strategy.Canary.Steps, obj)
 			}
-			for k, v := range srcV1beta1.Spec.Strategy.Canary.PatchPodTemplateMetadata.Annotations {
-				dst.Spec.Strategy.Canary.PatchPodTemplateMetadata.Annotations[k] = v
+			for _, ref := range srcV1beta1.Spec.Strategy.Canary.TrafficRoutings {
+				obj := ConversionToV1alpha1TrafficRoutingRef(ref)
+				dst.Spec.Strategy.Canary.TrafficRoutings = append(dst.Spec.Strategy.Canary.TrafficRoutings, obj)
 			}
-			for k, v := range srcV1beta1.Spec.Strategy.Canary.PatchPodTemplateMetadata.Labels {
-				dst.Spec.Strategy.Canary.PatchPodTemplateMetadata.Labels[k] = v
+			if srcV1beta1.Spec.Strategy.Canary.PatchPodTemplateMetadata != nil {
+				dst.Spec.Strategy.Canary.PatchPodTemplateMetadata = &PatchPodTemplateMetadata{
+					Annotations: map[string]string{},
+					Labels:      map[string]string{},
+				}
+				for k, v := range srcV1beta1.Spec.Strategy.Canary.PatchPodTemplateMetadata.Annotations {
+					dst.Spec.Strategy.Canary.PatchPodTemplateMetadata.Annotations[k] = v
+				}
+				for k, v := range srcV1beta1.Spec.Strategy.Canary.PatchPodTemplateMetadata.Labels {
+					dst.Spec.Strategy.Canary.PatchPodTemplateMetadata.Labels[k] = v
+				}
 			}
-		}
-		if dst.Annotations == nil {
-			dst.Annotations = map[string]string{}
-		}
-		if srcV1beta1.Spec.Strategy.Canary.EnableExtraWorkloadForCanary {
-			dst.Annotations[RolloutStyleAnnotation] = strings.ToLower(string(CanaryRollingStyle))
-		} else {
-			dst.Annotations[RolloutStyleAnnotation] = strings.ToLower(string(PartitionRollingStyle))
-		}
-		if srcV1beta1.Spec.Strategy.Canary.TrafficRoutingRef != "" {
-			dst.Annotations[TrafficRoutingAnnotation] = srcV1beta1.Spec.Strategy.Canary.TrafficRoutingRef
+			if dst.Annotations == nil {
+				dst.Annotations = map[string]string{}
+			}
+			if srcV1beta1.Spec.Strategy.Canary.EnableExtraWorkloadForCanary {
+				dst.Annotations[RolloutStyleAnnotation] = strings.ToLower(string(CanaryRollingStyle))
+			} else {
+				dst.Annotations[RolloutStyleAnnotation] = strings.ToLower(string(PartitionRollingStyle))
+			}
+			if srcV1beta1.Spec.Strategy.Canary.TrafficRoutingRef != "" {
+				dst.Annotations[TrafficRoutingAnnotation] = srcV1beta1.Spec.Strategy.Canary.TrafficRoutingRef
+			}
 		}
 
 		// status
@@ -319,16 +329,21 @@ func (src *BatchRelease) ConvertTo(dst conversion.Hub) error {
 		obj.ObjectMeta = src.ObjectMeta
 		obj.Spec = v1beta1.BatchReleaseSpec{}
 		srcSpec := src.Spec
-		obj.Spec.WorkloadRef = v1beta1.ObjectRef{
-			APIVersion: srcSpec.TargetRef.WorkloadRef.APIVersion,
-			Kind:       srcSpec.TargetRef.WorkloadRef.Kind,
-			Name:       srcSpec.TargetRef.WorkloadRef.Name,
+		// workloadRef is optional in the v1alpha1 schema
+		if srcSpec.TargetRef.WorkloadRef != nil {
+			obj.Spec.WorkloadRef = v1beta1.ObjectRef{
+				APIVersion: srcSpec.TargetRef.WorkloadRef.APIVersion,
+				Kind:       srcSpec.TargetRef.WorkloadRef.Kind,
+				Name:       srcSpec.TargetRef.WorkloadRef.Name,
+			}
 		}
 		obj.Spec.ReleasePlan = v1beta1.ReleasePlan{
 			BatchPartition:   srcSpec.ReleasePlan.BatchPartition,
 			RolloutID:        srcSpec.ReleasePlan.RolloutID,
 			FailureThreshold: srcSpec.ReleasePlan.FailureThreshold,
 			FinalizingPolicy: v1beta1.FinalizingPolicyType(srcSpec.ReleasePlan.FinalizingPolicy),
+			// the rolling-style annotation, if it names a style, takes precedence (see below)
+			RollingStyle: v1beta1.RollingStyleType(srcSpec.ReleasePlan.RollingStyle),
 		}
 		for _, batch := range srcSpec.ReleasePlan.Batches {
 			o := v1beta1.ReleaseBatch{
